@@ -278,7 +278,9 @@ def run_sample(tst, cfg, xs, buf=None):
             tst.u = realu * 1.25          # (as set_p_values does with every new margin)
             with warnings.catch_warnings():
                 warnings.simplefilter("ignore")
-                tst.test(np.array([float(v) for v in xs]))
+                # (tolerances given by keyword belong to that one call)
+                kws = {"atol": 0.25, "rtol": 0.25} if cfg["method"] in ("ALPHA", "BETTING") and n % 2 == 0 else {}
+                tst.test(np.array([float(v) for v in xs]), **kws)
         except Exception:
             pass
         finally:
@@ -380,8 +382,9 @@ def conv_records(rng, n):
         tst = NonnegMean(u=float(u))
         ms = [u * i / 8 for i in range(1, 8)]
         for m in ms:
-            lams = [F(0), 1 / (2 * m), 1 / m, F(1, 4)]
-            etas = [m, (m + u) / 2, u, m + (u - m) / 4]
+            # (bets below 0 / alternatives below the null mean included: the conversions are inverses on all of it)
+            lams = [F(0), 1 / (2 * m), 1 / m, F(1, 4), -1 / (2 * (u - m)), -1 / (u - m)]
+            etas = [m, (m + u) / 2, u, m + (u - m) / 4, m / 2, F(0)]
             for lam, eta in zip(lams, etas):
                 e_of_l = tst.lam_to_eta(float(lam), float(m))
                 l_of_e = tst.eta_to_lam(float(eta), float(m))
@@ -414,6 +417,32 @@ def equiv_records(samples_by_key, tier):
                 x = np.array([float(v) for v in xs])
                 r = {"kind": "equiv", "tid": f"equiv:{k}", "cfgname": f"equiv-{betname}",
                      "site": f"ALPHA=BETTING/{betname}/{'inf' if N == 0 else 'fin'}/u={u}", "x": [rs(v) for v in xs]}
+                k += 1
+                try:
+                    with warnings.catch_warnings():
+                        warnings.simplefilter("ignore")
+                        pa, ha = al.test(x.copy())
+                        pb, hb = bt.test(x.copy())
+                    r.update(ph_alpha=[rs(v) for v in ha], ph_bet=[rs(v) for v in hb], p_alpha=rs(pa), p_bet=rs(pb))
+                except Exception as ex:
+                    r["exc"] = {"type": type(ex).__name__, "site": core.exc_site(ex)}
+                recs.append(r)
+        # the other direction: betting_mart driven by lam_j = eta_to_lam(eta_j, m_j) against alpha_mart with that
+        # eta_j (a constant strictly inside (0, u); below the null conditional mean the bet is negative)
+        for mult in (0.45, 0.7):
+            NN = N if N else float("inf")
+            eta0 = mult * float(u)
+            al = NonnegMean(test=NonnegMean.alpha_mart, estim=lambda self, x, _e=eta0: _e * np.ones(len(x)),
+                            u=float(u), N=NN, t=0.5)
+
+            def bet(self, x, _al=al, _NN=NN):
+                _S, _Stot, _j, m = self.sjm(_NN, self.t, x)
+                return self.eta_to_lam(_al.estim(x), m)
+            bt = NonnegMean(test=NonnegMean.betting_mart, bet=bet, u=float(u), N=NN, t=0.5)
+            for xs in samples:
+                x = np.array([float(v) for v in xs])
+                r = {"kind": "equiv", "tid": f"equiv:{k}", "cfgname": f"equiv-eta{mult}",
+                     "site": f"BETTING=ALPHA/eta{mult}/{'inf' if N == 0 else 'fin'}/u={u}", "x": [rs(v) for v in xs]}
                 k += 1
                 try:
                     with warnings.catch_warnings():
